@@ -281,6 +281,39 @@ impl Op {
         }
     }
 
+    /// Rough, purely static cost estimate in microseconds (warm). Used to decide which ops may be
+    /// repeated hundreds of times; deliberately NOT measured, so that scenario generation stays
+    /// a function of the seed.
+    pub fn est_cost_us(&self) -> u32 {
+        match self {
+            Op::LonLatToCell { res, .. } => {
+                if *res < 2 {
+                    5
+                } else {
+                    70
+                }
+            }
+            Op::CellToBoundaryDefault { cell } | Op::CellToBoundary { cell, segments: None, .. } => {
+                let r = a5::get_resolution(*cell);
+                let seg = 1u32 << (6 - r.clamp(0, 6)) as u32;
+                5 + seg * 5
+            }
+            Op::CellToBoundary { segments: Some(n), .. } => 5 + (*n).clamp(1, 1000) as u32 * 5,
+            Op::CellToChildren { cell, res } => {
+                let r = a5::get_resolution(*cell);
+                let d = (res.unwrap_or(r + 1) - r).clamp(0, 10) as u32;
+                2 + (1u32 << (2 * d)) / 8
+            }
+            Op::Compact { cells } => 5 + cells.len() as u32 / 4,
+            Op::Uncompact { cells, .. } => 5 + cells.len() as u32 * 4,
+            Op::ContainsPoint { .. } | Op::GetPentagon { .. } | Op::CellToLonLat { .. } => 5,
+            Op::Forward { t: Target::Fresh, .. } | Op::Inverse { t: Target::Fresh, .. } | Op::CrsVertex { inst: None, .. } => 60,
+            Op::SphTriShape { .. } | Op::PentagonShapeOps { .. } | Op::NormalizeLongitudes { .. } => 8,
+            Op::OriginsDigest | Op::PentagonDigest => 3,
+            _ => 2,
+        }
+    }
+
     /// Does the call go through the calling thread's projection memo?
     pub fn uses_tl(&self) -> bool {
         matches!(
